@@ -2,14 +2,13 @@ package main
 
 import (
 	"reflect"
-	"strings"
 )
 
 // Shape is a type shape of the grammar: a static Go type plus, for every interface-typed position, the shape of
 // the dynamic content put there.
 //
 //	S ::= leaf | *S (at most two in a row) | []E | map[K]E | Box{V: any{S}}      E ::= S | any{S}
-//	K ::= string | int | bool | NStr | SKey | any (dynamic keys of several kinds)
+//	K ::= string | int | bool | NStr | SKey | SKeyAny | any (dynamic keys of several kinds)
 type Shape struct {
 	K    string `json:"k"`              // leaf | ptr | slice | map | box
 	Leaf string `json:"leaf,omitempty"` // leaf name
@@ -223,8 +222,9 @@ var domCache = map[domKey][]*Val{}
 //	leaf      every boundary value of the kind (reduced: the first and the ones marked hard)
 //	struct    zero; for every field every value of the field's reduced domain with the other fields zero; all set; extras
 //	*S        nil; pointer to every value of S
-//	[]E       nil; empty; [v] for every v of E; [v_i, v_i+1] cyclically      (E any: values of the content and nil)
-//	map[K]E   nil; empty; {k_i: v_i} and {k_i: v_i, k_i+1: v_i+1} cyclically over max(|K|,|E|)
+//	[]E       nil; empty; [v] for every v of E; pairs [v_i, v_i+1] cyclically   (E any: values of the content and nil)
+//	map[K]E   nil; empty; {k_i: v_i} for i < max(|K|,|E|) (indices cyclic); pairs {k_i: v_i, k_i+1: v_i+1}
+//	          pairs: every i when the element is a leaf or in the thorough tier, else i = 0 and i = last
 //	Box       Box{nil}; Box{v} for every v
 func dom(s *Shape, red bool) []*Val {
 	k := domKey{s, red}
@@ -313,7 +313,7 @@ func buildDom(s *Shape, red bool) []*Val {
 			out = append(out, singles[i])
 		}
 		if len(ed) > 1 {
-			for i := range ed {
+			for _, i := range pairIdx(s, len(ed)) {
 				j := (i + 1) % len(ed)
 				out = append(out, &Val{S: s, RV: mk(ed[i], ed[j]), Kids: nonNil(ed[i], ed[j], singles[i], singles[j]), Special: special(ed[i], ed[j])})
 			}
@@ -343,7 +343,7 @@ func buildDom(s *Shape, red bool) []*Val {
 			singles[i] = &Val{S: s, RV: mk([]*Val{k}, []*Val{e}), Kids: nonNil(k, e), Special: special(e)}
 			out = append(out, singles[i])
 		}
-		for i := 0; i < n; i++ {
+		for _, i := range pairIdx(s, n) {
 			j := (i + 1) % n
 			k1, e1, k2, e2 := kd[i%len(kd)], ed[i%len(ed)], kd[j%len(kd)], ed[j%len(ed)]
 			if k1 == k2 {
@@ -353,6 +353,23 @@ func buildDom(s *Shape, red bool) []*Val {
 		}
 	}
 	return out
+}
+
+// allPairs: thorough tier, top-level shapes of depth <= 3. Otherwise containers whose element is not a leaf get
+// only the two pairs (v_0,v_1) and (v_last,v_0): their elements were already paired one level down.
+var allPairs bool
+
+func setPairRule(quick bool, topDepth int) { allPairs = !quick && topDepth <= 3 }
+
+func pairIdx(s *Shape, n int) []int {
+	if allPairs || s.Elem.K == "leaf" || n <= 2 {
+		out := make([]int, n)
+		for i := range out {
+			out[i] = i
+		}
+		return out
+	}
+	return []int{0, n - 1}
 }
 
 var keyDomCache = map[string][]*Val{}
@@ -385,6 +402,9 @@ func keyDom(key string) []*Val {
 		d = pick("NStr", "empty", "ascii", "mixed")
 	case "SKey":
 		d = []*Val{handVal(L("SKey"), SKey{}), handVal(L("SKey"), SKey{A: "a", B: 1}), handVal(L("SKey"), SKey{A: "é\"\u2028", B: 1<<53 + 1})}
+	case "SKeyAny":
+		d = []*Val{handVal(L("SKeyAny"), SKeyAny{}), handVal(L("SKeyAny"), SKeyAny{X: "s"}), handVal(L("SKeyAny"), SKeyAny{X: 1}),
+			handVal(L("SKeyAny"), SKeyAny{X: NStr("n")}), handVal(L("SKeyAny"), SKeyAny{X: 1.5})}
 	case "any":
 		d = append(d, pick("string", "ascii")...)
 		d = append(d, pick("int", "one")...)
@@ -451,7 +471,13 @@ func structDom(s *Shape, l *leafDef, red bool) []*Val {
 				}
 				sv := reflect.New(t).Elem()
 				set(sv, i, x)
-				out = append(out, &Val{S: s, RV: sv, Kids: nonNil(x), Special: special(x)})
+				kids := nonNil(x)
+				for k := range l.sdef.fields {
+					if k != i && len(fdoms[k]) > 0 && fdoms[k][0] != nil {
+						kids = append(kids, fdoms[k][0])
+					}
+				}
+				out = append(out, &Val{S: s, RV: sv, Kids: kids, Special: special(x)})
 			}
 		}
 	}
@@ -482,5 +508,3 @@ func shortStr(s string, n int) string {
 	}
 	return s[:n] + "…"
 }
-
-var _ = strings.Repeat
